@@ -63,6 +63,16 @@ CHECKS = {
    "build_router(AppState) is driven in-process with tower oneshot over RecStore(InMemory). The method table is parsed from the working tree's api/mod.rs at run time (new methods are enumerated automatically; a shrunk or unclassifiable table is inconclusive). Matrix: 20 callers (none, malformed, garbage incl. stored hashes, admin, key A, key B, other key of B, revoked keys, key of a closed db) x 20 paths (root, A, B, unkeyed, primary, closed, missing, traversal/percent-encoded/oversized/invalid-UTF-8/unrouted) x 3 encodings x all table methods + unknown names + oversize body + collection traversal = 62,600 requests, all executed. Oracles: uniform rejection byte-identical to the anonymous 401 (harness model of the auth rules), path-only responses identical for all callers/worlds, no effective mutation and unchanged admin view after rejected requests, accepted db-key requests mutate only under their prefix and leak no foreign names/markers, Read-labelled methods leave no mutation in 7 lifecycle states, every caller without a B-valid key gets byte-identical responses in four worlds differing only in B; generated set/remove_api_key/create/close/open/restart/crash histories are probed after every step against a binding model; restart guards.",
    "Writes by the documented lazy collection open on first read are counted and confined to the database prefix, then the read is measured on the loaded handle. Clock-dependent statistics fields are masked only in the own-database cross-world comparison. Keyless mode and timing side channels are outside the checked space.",
    "DESIGN.md C14"),
+ "C15": ("v_kip", "exploration",
+   "grammar-based generation + metamorphic relations executed in child processes on a small fixed stack with abort attribution; CPU-time scaling measurements",
+   "Inputs: Unicode/byte noise, a grammar-derived KQL/KML/META/JSON sentence generator (330 required AST families, depth up to and beyond the nesting limit, lengths up to and beyond the input limit), the repository's own corpora read at run time (719 items), and 13 token-level mutators; all parsing runs in re-exec'd child processes on a 1 MiB-stack thread (a child death is bisected to the input and reported). Oracles: every entry point returns Ok/Err twice identically; over-limit inputs are refused with the resource error by all five entry points with a bounded number of allocations (exact depth/length boundary cases over 33 bracket kinds incl. string/comment decoys are enumerated); parse_kip == specific parser + validate_command, classes agree; on accepted input validate_command is Ok, serde value/text round trips are equal and re-validate, a stray-token append fails or changes the tree, case / trivia / compact renderings give an equal AST; 29 pathological families are measured in thread CPU time at doubling sizes up to the largest legal input.",
+   "Inputs are sampled except the boundary cases. The bounded-work oracle fires at > 5 s CPU with super-linear growth or > 10 s with linear growth for the largest legal input (absolute, generous bound; measurements otherwise). ASan for the parser corpus is not implemented.",
+   "DESIGN.md C15"),
+ "C16": ("v_kip", "exploration",
+   "completely enumerated guard matrix + independent AST walker over accepted trees + JSON-level tree injection into validate_command + ASSERT desugaring differential against a harness-side definition",
+   "308,062 matrix cells (11 clause families and their assignment blocks x 29 target-kind WHERE shapes x 25 names (engine-owned, payload, aliases, ordinary) x 25 spellings x 3 wraps, plus PURGE confirm, ENSURE/ASSERT id forms, UPSERT MATCH identities, 40 handle plans) are rendered, parsed and - when accepted - walked by a harness visitor written from the specification (engine-owned key in any SET/UNSET block, immutable payload via SET FIELDS, record topology via UPDATE on statically bound targets, BELIEF in a mutation WHERE / EXPORT selection, UPSERT without stable identity, handle declared twice, handle never bound, unconfirmed PURGE); ~45 JSON injection operators are applied at every site of representative accepted trees and fed to validate_command, accepted results are walked; ASSERT statements are compared with a harness-side expansion (exactly EnsureProposition + CreateAssertion + Supersede iff SUPERSEDING, exactly the written fields, missing by/mode refused); a sanity set proves every walker rule can fire.",
+   "exhaustive: true refers to the matrix only; injected trees, generated plans and ASSERT statements are sampled. Direct-id targets are not judged (undecidable syntactically).",
+   "DESIGN.md C16"),
 }
 
 NOT_YET = {
